@@ -78,7 +78,7 @@ func (c18) Gen(seed uint64, idx int, tier string) *Scenario {
 		}
 	}
 	sc.SetStr("flags", flags)
-	sc.SetStr("filemode", prng.Pick(r, []string{"name", "name", "name", "dash", "stdin"}))
+	sc.SetStr("filemode", prng.Pick(r, []string{"name", "name", "name", "dash", "stdin", "devnull"}))
 	switch mode {
 	case 1:
 		sc.SetStr("mode", "bdump")
@@ -172,6 +172,13 @@ func spellArgs(r *prng.R, flags string, file string, extra []string) []string {
 		}
 	}
 	items = append(items, extra...)
+	if len(items) > 0 && r.Chance(1, 6) {
+		// a flag given twice means what it means once
+		d := items[r.Intn(len(items))]
+		if !strings.HasPrefix(d, "--b") {
+			items = append(items, d)
+		}
+	}
 	for i := len(items) - 1; i > 0; i-- {
 		j := r.Intn(i + 1)
 		items[i], items[j] = items[j], items[i]
@@ -216,9 +223,7 @@ func runBin(dir string, args []string, stdin []byte, strace []string) procResult
 	cmd.Stdout, cmd.Stderr = &so, &se
 	if stdin != nil {
 		cmd.Stdin = bytes.NewReader(stdin)
-	} else {
-		cmd.Stdin = strings.NewReader("")
-	}
+	} // else: os/exec connects the child's standard input to /dev/null
 	pr := procResult{}
 	if err := cmd.Start(); err != nil {
 		pr.status = -2
@@ -344,6 +349,9 @@ func (c18) Run(t *testing.T, sc *Scenario) *Outcome {
 		}
 		os.Remove(filepath.Join(dir, bcb))
 		defer os.Remove(filepath.Join(dir, bcb))
+		if len(extra) == 1 && strings.HasPrefix(extra[0], "--bdump=") && strings.HasSuffix(srcName, ".bcl") && r.Chance(1, 4) {
+			extra = append(extra, "--bdump") // valued, then bare: the bare spelling only switches dumping on
+		}
 		want, dump := libraryRun(sc.Src, srcName, flags, nil)
 		if r.Chance(1, 2) && dump != nil {
 			// the dump file already exists from an earlier, larger program: it must be replaced, not overlaid
@@ -489,6 +497,11 @@ func (c18) Run(t *testing.T, sc *Scenario) *Outcome {
 			file, stdin, name = "-", sc.Src, "/dev/stdin"
 		case "stdin":
 			file, stdin, name = "", sc.Src, "/dev/stdin"
+		case "devnull":
+			// no FILE and nothing on standard input (what cron, nohup and exec.Cmd give a child): the empty program
+			file, stdin, name = "", nil, "/dev/stdin"
+			sc = sc.Clone()
+			sc.Src = nil
 		}
 		want, _ := libraryRun(sc.Src, name, flags, nil)
 		var first *procResult
